@@ -352,6 +352,15 @@ func (r *runner) namesObs(o common.Outcome) (string, string) {
 	return "OErr", o.Printed
 }
 
+// dispatchObs: with no :before method applicable only the silent primary on t ran, which the
+// model (it knows the :before methods only) reports as "no applicable method"
+func (r *runner) dispatchObs(o common.Outcome) (string, string) {
+	if o.Err == "" && o.Value == nil {
+		return "OErr", "nil (no :before method applicable)"
+	}
+	return r.namesObs(o)
+}
+
 func doneObs(o common.Outcome) (string, string) {
 	if o.Err != "" {
 		return errObs(o)
@@ -442,7 +451,9 @@ func Run(ctx *common.Ctx) {
 		for i := 0; i < 24; i++ {
 			r.scope.Let(slip.Symbol(fmt.Sprintf("i%d", i)), nil)
 		}
-		if o := r.eval(fmt.Sprintf("(defvar %s nil) (defgeneric %s (o))", r.trname(), r.gname())); o.Err != "" {
+		// the generic has a primary method on t that records nothing: a call whose only applicable
+		// methods are :before daemons is no-applicable-method since repo_fixes/C10-3 (it used to run them)
+		if o := r.eval(fmt.Sprintf("(defvar %s nil) (defgeneric %s (o)) (defmethod %s ((o t)) nil)", r.trname(), r.gname(), r.gname())); o.Err != "" {
 			ctx.Violate("case set-up failed", r.gname(), common.ShowOutcome(o), nil)
 			continue
 		}
@@ -531,7 +542,7 @@ func Run(ctx *common.Ctx) {
 		}
 		dispatch := func(i int) {
 			r.simple(fmt.Sprintf("ODispatch %d", i),
-				fmt.Sprintf("(progn (setq %s nil) (%s i%d) (reverse %s))", r.trname(), r.gname(), i, r.trname()), r.namesObs)
+				fmt.Sprintf("(progn (setq %s nil) (%s i%d) (reverse %s))", r.trname(), r.gname(), i, r.trname()), r.dispatchObs)
 			ctx.Hist("dispatch")
 		}
 		freshMethodClass := func() int {
